@@ -205,6 +205,30 @@ def run_check(mod, case):
     return info
 
 
+def clone_point(obj, case):
+    """A point in a case's history where the caller might just as well go on with a copy of a library object: under the
+    case key "_clone" ("deepcopy" | "copy" | "pickle") the object is replaced by copy.deepcopy(obj), copy.copy(obj) or
+    a pickle round trip of it.  An object that can not be copied that way (closures do not pickle) is used as it is:
+    only the behaviour of a copy that was made is judged."""
+    mode = case.get("_clone") if isinstance(case, dict) else None
+    if not mode:
+        return obj
+    import copy
+    import pickle
+    try:
+        if mode == "deepcopy":
+            return copy.deepcopy(obj)
+        if mode == "copy":
+            return copy.copy(obj)
+        if mode == "pickle":
+            return pickle.loads(pickle.dumps(obj))
+    except (Violation,):
+        raise
+    except Exception:
+        return obj
+    return obj
+
+
 NO_WARNINGS_ERROR = [False]  # set from the check module's ENV_EXCLUDE
 
 
@@ -220,6 +244,8 @@ def with_env(case, k):
             return {**case, "_env": {"logging_disabled": True}}
         if k == 3 and not NO_WARNINGS_ERROR[0]:
             return {**case, "_env": {"warnings_error": True}}
+        if k in (4, 5, 6) and "_clone" not in case:
+            return {**case, "_clone": {4: "deepcopy", 5: "copy", 6: "pickle"}[k]}
     return case
 
 
@@ -337,7 +363,7 @@ def _run_hyp(modname, tier, seed, shard, n, do_shrink, collect):
                   suppress_health_check=[HealthCheck.too_slow, HealthCheck.data_too_large,
                                          HealthCheck.large_base_example])
     from hypothesis import strategies as hst
-    strat = hst.tuples(mod.strategy(tier), hst.integers(0, 9)).map(lambda t: with_env(t[0], t[1]))
+    strat = hst.tuples(mod.strategy(tier), hst.integers(0, 13)).map(lambda t: with_env(t[0], t[1]))
     test = hseed(derive(seed, mod.PID, shard))(st(given(strat)(body)))
     failure = None
     try:
@@ -486,8 +512,8 @@ def main(argv=None):
     ncorpus = sum(len(g) for g in corpus)
     if hasattr(mod, "enumerated"):
         cases = list(mod.enumerated(tier, seed))
-        # members 2, 4, 6 and 8 of every nine of an enumerated family run under one of the process configurations
-        cases = [with_env(c, {4: 0, 2: 1, 6: 2, 8: 3}.get(i % 9, 9)) for i, c in enumerate(cases)]
+        # members 2, 4, ..., 14 of every fifteen of an enumerated family run under one of the process configurations
+        cases = [with_env(c, {4: 0, 2: 1, 6: 2, 8: 3, 10: 4, 12: 5, 14: 6}.get(i % 15, 99)) for i, c in enumerate(cases)]
         if cases:
             exhaustive = bool(getattr(mod, "EXHAUSTIVE", False))
             per = max(1, min(getattr(mod, "ENUM_CHUNK", 50), (len(cases) + NPROC * 4 - 1) // (NPROC * 4)))
